@@ -320,6 +320,9 @@ class Run:
 
             class Coop(base):
                 def get(s, block=True, timeout=None):
+                    if not block and s._qsize() == 0:
+                        import queue as _q
+                        raise _q.Empty
                     sc.block_until(lambda: s._qsize() > 0, "queue.get")
                     item = base.get(s, block=False)
                     R.ev("get", R.me(), item)
